@@ -116,7 +116,9 @@ func c12E2ECase(c *vf.Ctx, i int, mu *sync.Mutex) {
 		if lc.remote {
 			args = append(args, "--jobmode=fake_remote", fmt.Sprintf("--maxjobs=%d", lc.maxjobs), "--jobinterval=1")
 		}
+		restarted := false
 		if slowJoin && i%12 == 2 {
+			restarted = true
 			// cluster mode, mrp killed after its fifth submission and restarted at once: the
 			// jobs already submitted keep running, and the restarted mrp has to count them
 			// against --maxjobs when it re-attaches
@@ -221,7 +223,12 @@ func c12E2ECase(c *vf.Ctx, i int, mu *sync.Mutex) {
 				c.Violate("C12:e2e:mem-over-limit", fmt.Sprintf("jobs running at the same instant reserve %.2f GB in total with --localmem=%d", maxMem, lc.mem), replay)
 			}
 		} else if maxCnt > lc.maxjobs {
-			c.Violate("C12:e2e:maxjobs-exceeded", fmt.Sprintf("%d cluster jobs were running at the same instant with --maxjobs=%d", maxCnt, lc.maxjobs), replay)
+			sig, how := "C12:e2e:maxjobs-exceeded", ""
+			if restarted {
+				sig += ":after-restart"
+				how = " (mrp had been killed after its fifth submission and restarted while the submitted jobs kept running)"
+			}
+			c.Violate(sig, fmt.Sprintf("%d cluster jobs were running at the same instant with --maxjobs=%d%s", maxCnt, lc.maxjobs, how), replay)
 		}
 		if i < 3 {
 			c.Sample(map[string]interface{}{"e2e": true, "localcores": lc.cores, "localmem": lc.mem, "remote": lc.remote, "maxjobs": lc.maxjobs,
